@@ -40,12 +40,43 @@ func buildRequests(target int, fields modbus.Fields) ([]modbus.BuilderRequest, e
 	for _, f := range fields {
 		key += f.Name + f.ServerAddress + string(rune(f.Address))
 	}
-	switch variantOf(key) % 3 {
+	var callerSlice, callerCopy modbus.Fields
+	var staged func() // fields that are added after requests have been built once
+	switch variantOf(key) % 6 {
 	case 1:
 		for _, f := range fields {
 			b.Add(&modbus.BField{Field: f})
 		}
 	case 2:
+		// all fields are described first, then added
+		bfs := make([]*modbus.BField, len(fields))
+		for i, f := range fields {
+			bfs[i] = fluentField(b, f)
+		}
+		for _, bf := range bfs {
+			b.Add(bf)
+		}
+	case 3:
+		// the first fields as a sub-slice of the caller's slice (which has room behind it); the caller then reuses its
+		// slice for something else; the others are added one by one. The builder keeps what it was given, the caller's
+		// slice keeps what the caller wrote
+		callerSlice = append(modbus.Fields{}, fields...)
+		k := len(fields) / 2
+		b.AddAll(callerSlice[:k])
+		for i := range callerSlice {
+			callerSlice[i].Name = "JUNK"
+			callerSlice[i].Address ^= 1
+		}
+		callerCopy = append(modbus.Fields{}, callerSlice...)
+		for i := k; i < len(fields); i++ {
+			b.Add(&modbus.BField{Field: fields[i]})
+		}
+	case 4:
+		// half of the fields, requests built, the other half: the later build sees all of them
+		k := len(fields) / 2
+		b.AddAll(append(modbus.Fields{}, fields[:k]...))
+		staged = func() { b.AddAll(append(modbus.Fields{}, fields[k:]...)) }
+	case 5:
 		for _, f := range fields {
 			b.Add(fluentField(b, f))
 		}
@@ -78,11 +109,20 @@ func buildRequests(target int, fields modbus.Fields) ([]modbus.BuilderRequest, e
 	if variantOf(key+"pre")%2 == 1 {
 		_, _ = call((target + 4) % 8)
 	}
+	if staged != nil {
+		_, _ = call(target)
+		staged()
+	}
 	reqs, err := call(target)
 	reqs2, err2 := call(target)
 	// (which of several invalid groups is reported first depends on map iteration order: only success/failure is compared)
 	if (err == nil) != (err2 == nil) || (err == nil && reqsSig(target, reqs) != reqsSig(target, reqs2)) {
 		return nil, errBuilderChanged
+	}
+	for i := range callerSlice {
+		if callerSlice[i] != callerCopy[i] {
+			return nil, errBuilderChanged
+		}
 	}
 	return reqs, err
 }
